@@ -32,6 +32,9 @@ pub struct Case {
     /// makes of them is the policy under test (it must not panic).
     #[serde(default)]
     pub env_raw: Option<Vec<String>>,
+    /// in addition to the policy grid: a CDN history (CdnClient::download_with_retry over HTTP status classes)
+    #[serde(default)]
+    pub cdn: Option<super::cdn::CdnCase>,
 }
 
 /// outcome alphabet: (name, hint in ms). Whether an error is retryable is asked of the error itself
@@ -131,12 +134,13 @@ impl Scenario for Retry {
         "one (policy, outcome sequence) execution of RetryPolicy::execute under the virtual clock"
     }
     fn rule(&self) -> &'static str {
-        "Run i takes policy #(i mod 3000) of the full grid max_attempts 0..5 x initial_backoff {0,1ms,100ms,10s,1h} x max_backoff {0,1ms,100ms,10s,1h} x multiplier {0,0.5,1,2,10,1e300,NaN,-1,-0.0,inf} x jitter on/off (every second cycle the policy is built through RetryPolicy::from_env from environment strings) and executes, on the real RetryPolicy::execute under tokio's paused clock, ALL outcome sequences up to length 3 plus a seeded sample of longer ones (up to max_attempts+2) over {Ok, Network, Timeout, 503, ServiceUnavailable, 429, RateLimited(None|0|1ms|7s), Parse, 404}. The scripted closure records tokio::time::Instant::now() at every invocation, so every gap is measured exactly; jitter is drawn from the seeded entropy seam. evaluations = executions; non-trivial = the closure was invoked >= 2 times (>= 1 injected failure was retried); distinct = hash of (policy, sequence, measured gaps)."
+        "Run i takes policy #(i mod 3000) of the full grid max_attempts 0..5 x initial_backoff {0,1ms,100ms,10s,1h} x max_backoff {0,1ms,100ms,10s,1h} x multiplier {0,0.5,1,2,10,1e300,NaN,-1,-0.0,inf} x jitter on/off (every second cycle the policy is built through RetryPolicy::from_env from environment strings) and executes, on the real RetryPolicy::execute under tokio's paused clock, ALL outcome sequences up to length 3 plus a seeded sample of longer ones (up to max_attempts+2) over {Ok, Network, Timeout, 503, ServiceUnavailable, 429, RateLimited(None|0|1ms|7s), Parse, 404}. The scripted closure records tokio::time::Instant::now() at every invocation, so every gap is measured exactly; jitter is drawn from the seeded entropy seam. One run in six additionally drives the real CdnClient::download_with_retry (default policy) over the simulated HTTP transport (scen/cdn.rs: per-request behaviour queues over {ok, 5xx x8, 429 with no / 0 / 1 / 7 / unparsable Retry-After, 400/403/404/410, refused, reset, client time-out, body reset, body stall}); there the number of REQUESTS, the waits between the failure of one request and the start of the next (from the simulated host's log, on tokio's clock), the stop at the first 200 / first definitive status, and the error returned are judged by the same rules. evaluations = executions; non-trivial = the closure was invoked >= 2 times (>= 1 injected failure was retried); distinct = hash of (policy, sequence, measured gaps)."
     }
     fn assumptions(&self) -> Vec<&'static str> {
         vec![
             "tokio's timer granularity is 1 ms: a measured gap may exceed the nominal delay by < 1 ms (+ 1 ms for the jitter's own rounding); measured, see counter max_overshoot_ns",
             "for multipliers that are not finite and non-negative (NaN, -1, inf, 1e300 overflow) only the bounds are judged (gap <= 1.3*max_backoff, no panic, completion), not the exact exponential value",
+            "CDN arm: which configured TTL a downloaded object gets is not judged; a body that breaks off may be classified retryable or not (asked of reqwest's error); a Retry-After of 0 may be honoured or treated as absent",
             "retryable = Network, Timeout, ServerError, ServiceUnavailable, RateLimited, HTTP 429/500/502/503/504; everything else is definitive (the classification the property's statement names)",
         ]
     }
@@ -146,6 +150,8 @@ impl Scenario for Retry {
             ("tokio::time::sleep", "simulated (paused runtime, auto-advance; gaps measured on tokio's clock)"),
             ("rand::rng() jitter", "simulated (interposed getrandom, seeded)"),
             ("the operation being retried", "stub (scripted closure returning the generated outcome sequence)"),
+            ("CDN arm: CdnClient::download / download_archive_index / download_with_retry (status -> error mapping, Retry-After parsing), ProtocolCache", "real"),
+            ("CDN arm: the CDN host, kernel TCP, TLS, hyper, reqwest connection pool and its 45 s client time-out", "stub (in-process transport behind the http_send seam; the time-out is modelled as ProtocolError::Timeout after 45 s of virtual time)"),
         ]
     }
     fn runs(&self, tier: Tier) -> u64 {
@@ -153,6 +159,10 @@ impl Scenario for Retry {
             Tier::Quick => 6_000,
             Tier::Thorough => 120_000,
         }
+    }
+
+    fn process_init(&self) {
+        super::cdn::process_init();
     }
 
     fn generate(&self, rng: &mut Rng, _tier: Tier) -> Case {
@@ -229,17 +239,37 @@ impl Scenario for Retry {
         } else {
             None
         };
-        Case { max_attempts, initial_ms, max_ms, mult, jitter, via_env, seqs, env_raw }
+        // drawn last: one run in six also drives the CDN client's retry loop over the simulated HTTP transport
+        let cdn = if rng.chance(1, 6) { Some(super::cdn::generate(rng)) } else { None };
+        Case { max_attempts, initial_ms, max_ms, mult, jitter, via_env, seqs, env_raw, cdn }
     }
 
     fn execute(&self, case: &Case, ctx: &mut Ctx) -> Option<Violation> {
         ctx.needs_fault = true;
         let rt = super::paused_runtime();
-        rt.block_on(run(case, ctx))
+        if let Some(v) = rt.block_on(run(case, ctx)) {
+            return Some(v);
+        }
+        if let Some(cdn) = &case.cdn {
+            // a fresh runtime: a policy run that abandoned an absurd wait leaves its runtime unusable
+            let rt = super::paused_runtime();
+            return rt.block_on(super::cdn::run(cdn, ctx, super::cdn::Owner::C14));
+        }
+        None
     }
 
     fn shrink(&self, case: &Case) -> Vec<Case> {
         let mut out = Vec::new();
+        if let Some(cdn) = &case.cdn {
+            // which half fails? then shrink inside it
+            out.push(Case { cdn: None, ..case.clone() });
+            if !case.seqs.is_empty() {
+                out.push(Case { seqs: vec![], env_raw: None, via_env: false, ..case.clone() });
+                return out;
+            }
+            out.extend(super::cdn::shrink(cdn).into_iter().map(|c| Case { cdn: Some(c), ..case.clone() }));
+            return out;
+        }
         // one sequence at a time, then shorter sequences
         if case.seqs.len() > 1 {
             for s in &case.seqs {
